@@ -37,3 +37,28 @@ def demote(rule, key, diff, **kwargs):
         diff[Op.AFFECTED] += diff[Op.REMOVED]
         diff[Op.REMOVED] = []
     yield from common.default(rule, key, diff)
+
+
+def dyn_force_commit(rule, key, diff, **_):
+    """like huawei.bgp.undo_commit: replacing the line needs 'undo', a commit, then the new line; the rule asks for
+    the intermediate commit dynamically, from inside the generator"""
+    if diff[Op.REMOVED] and diff[Op.ADDED] and not diff[Op.AFFECTED]:
+        rule["force_commit"] = True
+        yield (False, rule["reverse"].format(*key), None)
+        rule["force_commit"] = False
+        only_add = {op: [] for op in diff}
+        only_add[Op.ADDED] = diff[Op.ADDED]
+        yield from common.default(rule, key, only_add)
+    else:
+        yield from common.default(rule, key, diff)
+
+
+def apply_alt(hw, do_commit, do_finalize, **_):
+    """a second apply logic for deploy rules (the way aruba.ap_env.apply differs from common.apply)"""
+    from annet.annlib.command import Command, CommandList
+    before, after = CommandList(), CommandList()
+    before.add_cmd(Command("alt-begin"))
+    if do_commit:
+        after.add_cmd(Command("alt-commit"))
+    after.add_cmd(Command("alt-end"))
+    return before, after
